@@ -159,11 +159,8 @@ def fingerprintFilter (c : Ctx) (q : LogQuery) (main : Sel) : Sel :=
 def samplesMain (c : Ctx) (q : LogQuery) : Sel :=
   (lineFilters q).foldl (fun s f => s.andWhere [lineClause f]) (fingerprintFilter c q (samplesInit c))
 
-/-- text of `fmt.Sprintf("%f", float64(d.Milliseconds())/1000)` -/
-def secText (durNs : Nat) : String :=
-  let ms := durNs / 1000000
-  let frac := toString (ms % 1000)
-  toString (ms / 1000) ++ "." ++ String.ofList (List.replicate (3 - frac.length) '0') ++ frac ++ "000"
+/-- the literal `fmt.Sprintf("%f", float64(d.Milliseconds())/1000)`: whole milliseconds over 1000 -/
+def secLit (durNs : Nat) : Expr := .fixedLit (durNs / 1000000) 3
 
 /-- `intDiv(<src>, d) * d as timestamp_ns` -/
 def bucketCol (src : String) (d : Int) : Expr :=
@@ -173,11 +170,11 @@ def countF : Expr := .call "toFloat64" [.call "COUNT" []]
 def bytesF : Expr := .call "toFloat64" [.call "sum" [.call "length" [.raw "_string"]]]
 
 /-- the `switch l.Func` of `LRAPlanner.Process`; `sec` is the divisor literal -/
-def lraValue (fn : RangeFn) (sec : String) : Expr :=
+def lraValue (fn : RangeFn) (sec : Expr) : Expr :=
   match fn with
-  | .rate => .divOp countF (.numLit sec)
+  | .rate => .divOp countF sec
   | .countOverTime => countF
-  | .bytesRate => .divOp bytesF (.numLit sec)
+  | .bytesRate => .divOp bytesF sec
   | .bytesOverTime => bytesF
 
 /-- `LRAPlanner.Process` -/
@@ -185,22 +182,22 @@ def lraSel (fn : RangeFn) (durNs : Nat) (withLabels : Bool) (main : Sel) : Sel :
   let main' := main.setCols (renameCol main.cols "string" "_string")
   (Sel.mk [] false
     ([bucketCol "time_series.timestamp_ns" durNs, simpleCol "fingerprint" "fingerprint", emptyStr,
-      .col (lraValue fn (secText durNs)) "value"] ++
+      .col (lraValue fn (secLit durNs)) "value"] ++
       (if withLabels then [.col (.call "any" [.raw "labels"]) "labels"] else []))
     (some (.col (.withRef (.named "agg_a")) "time_series")) [] none none
     [.raw "fingerprint", .raw "timestamp_ns"] none [] none).with_ [(.named "agg_a", main')]
 
 /-- the `switch m.Function` of `Metrics15ShortcutPlanner.Process` -/
-def shortcutValue (fn : RangeFn) (sec : String) : Expr :=
+def shortcutValue (fn : RangeFn) (sec : Expr) : Expr :=
   match fn with
-  | .rate => .divOp (.call "toFloat64" [.call "countMerge" [.raw "count"]]) (.numLit sec)
+  | .rate => .divOp (.call "toFloat64" [.call "countMerge" [.raw "count"]]) sec
   | _ => .call "countMerge" [.raw "count"]
 
 /-- `Metrics15ShortcutPlanner.GetQuery` -/
 def metrics15Sel (c : MCtx) (fn : RangeFn) (durNs : Nat) : Sel :=
   .mk [] false
     [bucketCol "samples.timestamp_ns" durNs, simpleCol "fingerprint" "fingerprint", emptyStr,
-     .col (shortcutValue fn (secText durNs)) "value"]
+     .col (shortcutValue fn (secLit durNs)) "value"]
     (some (.col (.raw c.metrics15Table) "samples")) [] none
     (some (and_ [ge (.raw "samples.timestamp_ns") (.int (Int.tdiv c.fromNs slot15 * slot15)),
                  lt (.raw "samples.timestamp_ns") (.int (Int.tdiv c.toNs slot15 * slot15)), getTypes c.toCtx]))
@@ -248,11 +245,11 @@ def planByWithout (c : Ctx) (useTS : Bool) (g : Option Grouping) (s : PState) : 
   | some g => if useTS then ⟨byWithoutTS c s.id g s.sel, s.id + 2⟩ else ⟨byWithoutSimple s.id g s.sel, s.id + 1⟩
 
 /-- the `switch u.Func` of `UnwrapFunctionPlanner.Process` -/
-def unwrapValue (fn : UnwrapFn) (sec : String) : Expr :=
+def unwrapValue (fn : UnwrapFn) (sec : Expr) : Expr :=
   let v := Expr.raw "unwrap_1.value"
   let t := Expr.raw "unwrap_1.timestamp_ns"
   match fn with
-  | .rate => .divOp (.call "sum" [v]) (.numLit sec)
+  | .rate => .divOp (.call "sum" [v]) sec
   | .sumOT => .call "sum" [v]
   | .avgOT => .call "avg" [v]
   | .maxOT => .call "max" [v]
@@ -265,7 +262,7 @@ def unwrapValue (fn : UnwrapFn) (sec : String) : Expr :=
 /-- `UnwrapFunctionPlanner.Process` -/
 def unwrapFnSel (fn : UnwrapFn) (durNs : Nat) (main : Sel) : Sel :=
   (Sel.mk [] false
-    [bucketCol "timestamp_ns" durNs, .raw "fingerprint", emptyStr, .col (unwrapValue fn (secText durNs)) "value",
+    [bucketCol "timestamp_ns" durNs, .raw "fingerprint", emptyStr, .col (unwrapValue fn (secLit durNs)) "value",
      .col (.call "any" [.raw "labels"]) "labels"]
     (some (.withRef (.named "unwrap_1"))) [] none none
     [.raw "fingerprint", .raw "timestamp_ns"] none [] none).with_ [(.named "unwrap_1", main)]
@@ -304,9 +301,14 @@ def topkSel (isTop : Bool) (k : Nat) (main : Sel) : Sel :=
     (some (.arrayJoinFrom (.withRef (.named "par_b")) (simpleCol "par_b.slice" "arr_b")))
     [] none none [] none [] none).with_ [(.named "par_b", parB)]
 
+/-- `sql.NewFloatVal(strconv.ParseFloat(script.Val))`: at most six decimals are kept by `%f` -/
+def cmpLit (n : NumLit) : Expr :=
+  let frac := n.frac.take 6
+  .fixedLit (n.int * 10 ^ frac.length + frac.foldl (fun acc d => acc * 10 + d) 0) frac.length
+
 def cmpExpr (cm : Comparison) : Expr :=
   let l := Expr.raw "value"
-  let r := Expr.numLit (numText cm.val)
+  let r := cmpLit cm.val
   match cm.op with
   | .gt => gt l r | .lt => lt l r | .ge => ge l r | .le => le l r | .eq => eq l r | .neq => neq l r
 
